@@ -282,7 +282,8 @@ func mergeCustomObjectFields(aTypes, bTypes map[string]*ast.Definition, a, b *as
 			return nil, fmt.Errorf("conflicting declarations of field %s.%s", a.Name, f.Name)
 		}
 
-		if isIDField(f) {
+		// the Relay id field is shared by every declaration of the type: keep a single one
+		if isIDField(f) && rf != nil {
 			continue
 		}
 
